@@ -418,7 +418,7 @@ func stageConcL2(r *vf.Run) {
 		r.Inconclusive("conc2: no blob with shared streams and a digest-only alteration")
 		return
 	}
-	reps := r.N(100, 300)
+	reps := r.N(60, 300)
 	for bi, bc := range bcs {
 		for rep := 0; rep < reps; rep++ {
 			a := alts[bi][rep%len(alts[bi])]
